@@ -58,6 +58,23 @@ package faucetsc
 //@   ensures result1 == nil ==> result0 != nil && fresh(result0)
 //@   modifies nothing
 
+// The same for the global window: $fgUsed / $fgStart are the stored global usage and window start.
+//@ ghost $fgUsed Int
+//@ ghost $fgStart Int
+
+//@ func (*FaucetSmartContract).getGlobalNode
+//@   trusted
+//@   ensures result1 == nil ==> result0 != nil && fresh(result0) && result0.FaucetConfig != nil && result0.Used == $fgUsed && result0.StartTime.ext == $fgStart
+//@   modifies nothing
+
+//@ func (*FaucetSmartContract).getGlobalVariables
+//@   prop C17
+//@   requires t != nil
+//@   ensures[open-window-keeps-usage] result1 == nil && t.CreationDate * 1000000000 - $fgStart < result0.GlobalReset ==> result0.Used == $fgUsed && result0.StartTime.ext == $fgStart
+//@   ensures[otherwise-new-window] result1 == nil ==> (result0.Used == $fgUsed && result0.StartTime.ext == $fgStart) || (result0.Used == 0 && result0.StartTime.ext == t.CreationDate * 1000000000)
+//@   ensures[over-window-restarts] result1 == nil && t.CreationDate * 1000000000 - result0.StartTime.ext >= result0.GlobalReset ==> result0.GlobalReset <= 0
+//@   modifies nothing
+
 // Every token that leaves the faucet wallet is within the balance and both limits at the moment
 // the transfer is queued, goes from the faucet to the requesting client, and is accounted in
 // the per-client and global counters, which are then persisted.
